@@ -28,6 +28,37 @@ SFAULT = {"dangling-operator": "{{ 1 + }}", "empty-if": "{% if %}x{% endif %}", 
 FOCUS = {"undefined-var": "nope", "undefined-field": "x", "unknown-path-in-set": "x", "filter-missing-arg": "replace", "component-missing-arg": "need",
          "divide-by-zero": "0", "bad-subscript": "'a'", "iterate-scalar": " 1 ", "in-scalar": "2", "spread-non-map": "1",
          "set-block-first-filter": "round"}
+# errors raised on the result of a sub-expression (MC_Spans!ProdKind / ConsAccepts): operand text, consumer with the operand as P
+from sites import PROD, CONS
+OKCOMP = "{% component ok() %}o{% endcomponent ok %}"
+
+
+def units_of(F):
+    """what a span may not cut in two: the tokens (names, numbers, strings) and the {..} groups of the fault text
+    (parentheses, and the closing bracket of a subscript, are not part of an expression's span in this engine: not units)"""
+    blank = re.sub(r"\{\{|\}\}|\{%|%\}", "  ", F)
+    units = [(m.start(), m.end()) for m in re.finditer(r"'[^']*'|[A-Za-z_][A-Za-z_0-9]*|\d+(?:\.\d+)?", blank)]
+    quoted = [(a, b) for a, b in units if blank[a] == "'"]
+    stack = []
+    for i, ch in enumerate(blank):
+        if any(a < i < b for a, b in quoted):
+            continue
+        if ch == "{":
+            stack.append(i)
+        elif ch == "}" and stack:
+            units.append((stack.pop(), i + 1))
+    return units
+
+
+def fault_text(name):
+    """-> (fault text, [unit texts])"""
+    if name.startswith("site:"):
+        _, pn, cn = name.split(":")
+        F = CONS[cn].replace("P", PROD[pn])
+        return F, units_of(F)
+    return RFAULT[name], []
+
+
 PREFIX = {"none": "", "ascii": "ab ", "two-byte": "é", "three-byte": "世世", "four-byte": "\U0001F600", "line2": "x\n", "line3-multibyte": "é\n世 \n  "}
 NEED = "{% component need(a) %}{{ a }}{% endcomponent need %}"
 ONECHAR = ["\u00ab", "\u00bb", "\u00bf", "\u00a1", "\u00a7", "\u00b6"]      # block start/end, variable start/end, comment start/end
@@ -40,11 +71,11 @@ def respell(src):
 
 def build(v):
     """-> (templates, entry, host name, host source, fault range in host, call sites [(template, call text)])"""
-    F = (SFAULT if v["syntax"] else RFAULT)[v["fault"]]
+    F, unit_texts = (SFAULT[v["fault"]], []) if v["syntax"] else fault_text(v["fault"])
     body = PREFIX[v["prefix"]] + F
     tail = "" if v["syntax"] else " tail\n"
     host = v["host"]
-    tpls = [["need.html", NEED]]
+    tpls = [["need.html", NEED], ["ok.html", OKCOMP]]
     sites = []
     if host == "entry":
         hn, hs = "entry.html", "E " + body + tail
@@ -85,6 +116,11 @@ def build(v):
         hn, hs = "parent.html", "P{% block b %}" + body + tail + "{% endblock %}Q"
         tpls += [[hn, hs], ["entry.html", "{% extends 'parent.html' %}{% block b %}c{{ super() }}{% endblock %}"]]
         entry = "entry.html"
+    elif host == "component-with-body":
+        hn, hs = "comp.html", "{% component k() %}C " + body + tail + "{% endcomponent k %}"
+        tpls += [[hn, hs], ["entry.html", "one\ntwo é {% <k> %}b{{ 1 }}{% </k> %} end"]]
+        entry = "entry.html"
+        sites = [("entry.html", "{% <k> %}")]
     elif host == "component":
         hn, hs = "comp.html", "{% component k() %}C " + body + tail + "{% endcomponent k %}"
         tpls += [[hn, hs], ["entry.html", "one\ntwo é {{<k/>}} end"]]
@@ -101,6 +137,7 @@ def build(v):
         sites = [(t, respell(c)) for t, c in sites]
     fs = len(hs[:hs.index(body) + len(PREFIX[v["prefix"]])].encode())
     fe = fs + len(F.encode())
+    build.units = [[fs + len(F[:a].encode()), fs + len(F[:b].encode())] for a, b in unit_texts]
     foc = None if v["syntax"] else FOCUS.get(v["fault"])
     if "component" in v["host"] and v["fault"] in ("undefined-field", "unknown-path-in-set"):
         foc = None            # a component does not see the context: there the undefined thing is `m` itself
@@ -131,18 +168,19 @@ def run(tier):
     for v in r.tags["VEC"]:
         tpls, entry, hn, hs, fs, fe, sites = build(v)
         focus = build.focus
+        units = build.units
         for opt in (True, False):
             cfg = {"optimize": opt, "autoescape": [".html"]}
             if v.get("delims") == "one-char-2-byte":
                 cfg["delims"] = ONECHAR
-            jobs.append({"cfg": cfg, "ctx": {"m": {"a": 1}}, "steps": [{"op": "add", "tpls": tpls}, {"op": "render", "name": entry}]})
-            meta.append((v, dict(tpls), hn, hs, fs, fe, sites, opt, focus))
+            jobs.append({"cfg": cfg, "ctx": {"m": {"a": 1}, "xs": [1], "nm": "n"}, "steps": [{"op": "add", "tpls": tpls}, {"op": "render", "name": entry}]})
+            meta.append((v, dict(tpls), hn, hs, fs, fe, sites, opt, (focus, units)))
     res = vp.run_jobs(jobs, tag="c12", timeout=3000)
     work = vp.workdir("c12")
     op = os.path.join(work, "obs.ndjson")
     recs = []
     with open(op, "w") as f:
-        for (v, tpls, hn, hs, fs, fe, sites, opt, focus), rr, job in zip(meta, res, jobs):
+        for (v, tpls, hn, hs, fs, fe, sites, opt, (focus, units)), rr, job in zip(meta, res, jobs):
             C.count()
             key = {"fault": v["fault"], "host": v["host"], "prefix": v["prefix"], "optimizer": opt, "delims": v.get("delims", "default")}
             if any(y.get("panic") or y.get("abort") for y in rr):
@@ -162,7 +200,7 @@ def run(tier):
             sl, sc, el, ec, s, e = x["span"]
             lines = hs.split("\n")
             disp = x.get("disp") or ""
-            o = dict(facts(hs), file=x.get("file"), host=hn, s=s, e=e, sl=sl, sc=sc, el=el, ec=ec, fs=fs, fe=fe, xs=focus[0], xe=focus[1], syntax=v["syntax"],
+            o = dict(facts(hs), file=x.get("file"), host=hn, s=s, e=e, sl=sl, sc=sc, el=el, ec=ec, fs=fs, fe=fe, xs=focus[0], xe=focus[1], units=units, syntax=v["syntax"],
                      dispok=bool(x.get("disp_ok")) and bool(disp), shown=[i + 1 for i, ln in enumerate(lines) if ln.strip() and ln in disp],
                      blank=[i + 1 for i, ln in enumerate(lines) if not ln.strip()], notes=[], wantnotes=[t for t, _ in sites], key=key)
             for n in x.get("notes", []):
@@ -180,7 +218,7 @@ def run(tier):
                 o["wantnotes"] = []      # call sites are not involved in a registration error
             f.write(json.dumps(o) + "\n")
             recs.append(o)
-    for law in ("InvConsistent", "InvLocalises", "InvRightTemplate", "InvQuoted", "InvNotes"):
+    for law in ("InvConsistent", "InvLocalises", "InvUncut", "InvRightTemplate", "InvQuoted", "InvNotes"):
         with open(vp.SPEC + "/MC_Spans_run.cfg", "w") as f:
             f.write("INIT Init\nNEXT Next\nINVARIANT %s\nCHECK_DEADLOCK FALSE\n" % law)
         r2 = vp.tlc("MC_Spans", "MC_Spans_run", env={"OBS": op}, workers=8, timeout=3000, name="c12-" + law, allow_fail=True)
